@@ -1,0 +1,21 @@
+// SPDX-FileCopyrightText: 2026 The Pion community <https://pion.ly>
+// SPDX-License-Identifier: MIT
+
+//go:build verif
+
+package jitterbuffer
+
+// VerifSizes returns the length counter of the interceptor's queue and the number of nodes
+// actually linked from its head (verification harness only).
+func (i *ReceiverInterceptor) VerifSizes() map[string]int {
+	i.m.Lock()
+	defer i.m.Unlock()
+	i.buffer.mutex.Lock()
+	defer i.buffer.mutex.Unlock()
+	nodes := 0
+	for n := i.buffer.packets.next; n != nil && nodes < 1<<24; n = n.next {
+		nodes++
+	}
+
+	return map[string]int{"length": int(i.buffer.packets.length), "nodes": nodes}
+}
